@@ -5,7 +5,7 @@ for d in "$@"; do
   p="$d/patch.diff"
   [ -f "$p" ] || continue
   out=$(/verif/tools/mutest.sh "$p" $ids 2>&1)
-  fired=$(echo "$out" | grep '^VIOLATION' | sed 's/.*property=\([A-Z0-9]*\).*kind=\([a-z]*\).*rule=\([A-Za-z0-9-]*\).*construct=\(.*\)/\1:\2:\3:\4/' | sort -u | tr '\n' ' ')
+  fired=$(echo "$out" | grep '^VIOLATION' | sed 's/.*property=\([A-Z0-9]*\).*kind=\([a-z]*\).*rule=\([A-Za-z0-9-]*\).*construct=\(.*\)/\1:\3/' | sort -u | tr '\n' ' ')
   if echo "$out" | grep -q PATCH-FAILED; then fired="PATCH-FAILED"; fi
   echo "$d => ${fired:-silent}"
 done
